@@ -100,3 +100,16 @@ Fixpoint list_eqb {X} (e : X -> X -> bool) (a b : list X) : bool :=
   match a, b with [], [] => true | x :: r, y :: s => e x y && list_eqb e r s | _, _ => false end.
 Definition crow_eqb (a b : crow) := Nat.eqb (r_rep a) (r_rep b) && list_eqb ccell_eqb (r_cells a) (r_cells b).
 Definition ctable_eqb (a b : ctable) := list_eqb crow_eqb a b.
+
+(* ---- a small scope of tables for the exhaustive sweep of C15_md_pinned_repeatable_small:
+   cells: repeat 1 or 3 x {non-empty, empty, empty-but-styled}; rows: 0, 1 or 2 cell runs, row repeat 1 or 2;
+   tables: every sequence of <= 2 such rows (7 568), and every sequence of 3 unrepeated rows (79 507) *)
+Definition small_cells : list ccell := flat_map (fun r => [mkCell r false false; mkCell r true true; mkCell r false true]) [1; 3].
+Definition small_cell_runs : list (list ccell) :=
+  [[]] ++ map (fun c => [c]) small_cells ++ flat_map (fun c => map (fun d => [c; d]) small_cells) small_cells.
+Definition small_rows : list crow := flat_map (fun cs => [mkRow 1 cs; mkRow 2 cs]) small_cell_runs.
+Definition small_rows1 : list crow := map (mkRow 1) small_cell_runs.
+Definition small_tables : list ctable :=
+  map (fun r => [r]) small_rows ++ flat_map (fun r => map (fun q => [r; q]) small_rows) small_rows
+  ++ flat_map (fun r => flat_map (fun q => map (fun s => [r; q; s]) small_rows1) small_rows1) small_rows1.
+Definition optimize_idempotent_on (t : ctable) : bool := ctable_eqb (optimize_rows (optimize_rows t)) (optimize_rows t).
